@@ -1,10 +1,83 @@
 (* C07 — Splitting, concatenating, merging and rechunking obey the laws of chunking.
    This file contains only property theorems, each closed by `exact <lemma>` and followed by
-   Print Assumptions. *)
-From SV Require Import Model.Rows Model.SplitArray Proof.SplitArrayProof.
+   Print Assumptions.  Statements not (yet) proved are kept visible as Definitions C07_full_*. *)
+From SV Require Import Model.Rows Model.SplitArray Model.Chunk Model.Rechunker
+     Model.Merge Proof.SplitArrayProof Proof.ChunkProof Proof.RechunkerProof Proof.MergeProof Proof.ConcatProof.
 
+(* split_array: refuses exactly when a row straddles; with early splitting returns the latest
+   admissible earlier time; every row entirely on one side; rows preserved in order *)
 Theorem C07_split_array_spec : forall rs t early,
   sorted rs -> Forall (fun q => 0 <= rt q) rs ->
   split_array_post rs t early (split_array rs t early).
 Proof. exact split_array_correct. Qed.
 Print Assumptions C07_split_array_spec.
+
+(* Chunk.split on any well-formed chunk: two adjacent well-formed chunks whose rows concatenate to the
+   original; CannotSplit iff not early and a row straddles the (clamped) time; no other error *)
+Theorem C07_chunk_split_spec : forall c t0 early,
+  wf c -> chunk_split_post c t0 early (chunk_split c t0 early).
+Proof. exact chunk_split_correct. Qed.
+Print Assumptions C07_chunk_split_spec.
+
+(* concatenate is the inverse of split *)
+Theorem C07_concat_split_inverse : forall c t0 early c1 c2,
+  wf c -> chunk_split c t0 early = Ok (c1, c2) ->
+  exists c', concatenate [Some c1; Some c2] false = Ok c' /\
+             cstart c' = cstart c /\ cend c' = cend c /\ crows c' = crows c /\
+             cdtype c' = cdtype c /\ ckind c' = ckind c /\ crun c' = crun c.
+Proof. exact concat_split_inverse. Qed.
+Print Assumptions C07_concat_split_inverse.
+
+(* the rechunker never fails on a valid contiguous stream (any number of chunks, any targets >= one
+   row); output is non-empty, well-formed, contiguous over the same overall range, same rows in order *)
+Theorem C07_rechunk_stream_spec : forall cs,
+  valid_stream cs ->
+  exists out, rechunk_stream cs = Ok out /\ out <> [] /\ Forall wf out /\
+    flat_map crows out = flat_map crows cs /\
+    chain (stream_start cs) out (stream_end cs).
+Proof. exact rechunk_stream_correct. Qed.
+Print Assumptions C07_rechunk_stream_spec.
+
+(* ... and it cuts only where no row is straddled *)
+Theorem C07_cuts_straddle_nothing : forall out s e,
+  Forall wf out -> chain s out e ->
+  forall pre c post, out = pre ++ c :: post -> post <> [] ->
+    ~ exists q, In q (flat_map crows out) /\ straddles q (cend c).
+Proof. exact chain_no_straddle. Qed.
+Print Assumptions C07_cuts_straddle_nothing.
+
+(* same-kind merge accepts exactly: equal kind, run id, length and (start, end) *)
+Theorem C07_merge_accepts_iff : forall cs dt,
+  (2 <= length cs)%nat ->
+  ((exists c, merge cs dt = Ok c) <->
+   (uniform kkind cs /\ uniform krun cs /\ uniform klen cs /\ uniform kstart cs /\ uniform kend cs)).
+Proof. exact merge_accepts_iff. Qed.
+Print Assumptions C07_merge_accepts_iff.
+
+(* the merged columns are the union of the inputs' columns (each once); on a collision the last input
+   (depends_on order) wins *)
+Theorem C07_merge_columns : forall cs dt c,
+  (2 <= length cs)%nat -> merge cs dt = Ok c ->
+  NoDup (fields (kdata c)) /\
+  (forall f, In f (fields (kdata c)) <-> exists d, In d cs /\ In f (fields (kdata d))) /\
+  (forall f pre d post col, cs = pre ++ d :: post -> lookup f (kdata d) = Some col ->
+      (forall b, In b post -> lookup f (kdata b) = None) -> lookup f (kdata c) = Some col).
+Proof. exact merge_columns. Qed.
+Print Assumptions C07_merge_columns.
+
+(* n-ary concatenate on well-formed chunks: accepted iff non-empty, same data type, same run id (unless
+   superruns are allowed) and ordered without overlap; the result is the concatenated rows over
+   first start .. last end and is well-formed *)
+Theorem C07_concatenate_accepts_iff : forall cs allow,
+  Forall wf cs ->
+  ((exists c, concatenate (map Some cs) allow = Ok c) <-> concat_valid cs allow) /\
+  (forall c, concatenate (map Some cs) allow = Ok c ->
+     crows c = flat_map crows cs /\ cstart c = cstart (hd c cs) /\ cend c = last_end 0 cs /\ wf c).
+Proof. exact concatenate_accepts_iff. Qed.
+Print Assumptions C07_concatenate_accepts_iff.
+
+(* continuity_check on ordinary-run chunks passes iff every chunk starts where its predecessor of the
+   same run ended *)
+Theorem C07_continuity_check_iff : forall cs, continuity_check cs = None <-> adj_ok cs.
+Proof. exact continuity_check_iff. Qed.
+Print Assumptions C07_continuity_check_iff.
